@@ -223,7 +223,8 @@ def main(chk: core.Check) -> int:
     if not g["ok"]:
         chk.obligation_broken("translator", "translate get_symmetric_matrix_index from root_io.hh", g["error"])
     else:
-        chk.prove()
+        core.regen_rootcpp(chk)
+        chk.prove(modules=["C16", "RootCppTie"])
         lines = [f"SYM {f} {d} {n} " + " ".join(map(str, v)) for f, d, n, v in cs]
         try:
             mout = core.lean_run("Driver/Sym.lean", "\n".join(lines) + "\n")
